@@ -48,7 +48,7 @@ PROPS = {
                 # an emitting transaction that succeeds where it must not emits a message the property forbids
                 only_impl_ok=[r'^tx:' + alt(PRODUCERS + REPLACERS) + r':out$'],
                 ops=[('tx', t) for t in PRODUCERS + REPLACERS]),
-    'C06': dict(level='proof', scenarios=[('history', 4000, 30000, 'send')],
+    'C06': dict(level='proof', scenarios=[('history', 4000, 30000, 'send'), ('depmatrix', 1500, 20000, '')],
                 tags=[r'^tx:' + alt(PRODUCERS + REPLACERS) + r':resp$', r'^ev:(MessageSent|DepositForBurn)$'],
                 ops=[('tx', t) for t in PRODUCERS + REPLACERS]),
     'C07': dict(level='proof', scenarios=[('nonces', 2500, 30000, ''), ('history', 2500, 20000, 'send')],
